@@ -13,6 +13,8 @@ func ZZC18Cli() {
 	syn, asyn := vn.Bool(), vn.Bool()
 	verb := vn.Int(-1, 5)
 	nargs := vn.Pick(3)
+	// a token written after the file name: nothing, or one of the switches
+	trail := []string{"", "--noexecute", "-execute=false", "--notypecheck", "-typecheck=false"}[vn.Pick(5)]
 	parseOK, typeOK := vn.Bool(), vn.Bool()
 	vn.CliFlagBool("typecheck", tc)
 	vn.CliFlagBool("notypecheck", ntc)
@@ -22,10 +24,28 @@ func ZZC18Cli() {
 	vn.CliFlagBool("async", asyn)
 	vn.CliFlagInt("verbosity", verb)
 	vn.CliArgs(nargs, parseOK, typeOK)
+	if trail != "" {
+		vn.Assume(nargs == 1)
+		vn.CliTrailing(trail)
+	}
 
 	typecheckRes := vn.And(vn.Not(ntc), tc)
 	executeRes := vn.And(vn.Not(nex), ex)
+	// switched off anywhere on the command line (the property: `--noexecute` never runs any
+	// process; typechecking is skipped only when explicitly disabled)
+	noExecAnywhere := vn.Or(vn.Not(executeRes), trail == "--noexecute" || trail == "-execute=false")
+	noCheckAnywhere := vn.Or(vn.Not(typecheckRes), trail == "--notypecheck" || trail == "-typecheck=false")
 	wantExit := vn.Or(nargs != 1, vn.Or(vn.Not(parseOK), vn.And(typecheckRes, vn.Not(typeOK))))
+	if trail != "" || nargs == 2 {
+		// whether a switch (or a second file) after the file name is an error or is honoured is
+		// not fixed by the property: both a diagnostic exit and a run that honours it are acceptable
+		vn.Expect(4)
+		Cli()
+		ran := vn.CliRan()
+		vn.Assert("C18.noexecute-anywhere-never-runs", vn.Implies(ran, vn.Not(noExecAnywhere)))
+		vn.Assert("C18.runs-only-checked-programs", vn.Implies(ran, vn.And(parseOK, vn.Or(typeOK, noCheckAnywhere))))
+		return
+	}
 	if vn.Concretize(vn.B2I(wantExit), 0, 1) == 1 {
 		vn.Expect(4) // a diagnostic and a non-zero exit status is the required behaviour here
 	}
